@@ -75,6 +75,12 @@ def run_graph_case(prop, case, note, skip, recipe_plan, oracle,
     except Exception as e:
       res['counts'][f'float_run_error:{type(e).__name__}'] += 1
       continue
+    # the admission rule (finite float activations) holds for every subgraph
+    for si in range(1, len(built.ops)):
+      try:
+        finite = finite and pipeline.float_run(built, dk, si)[2]
+      except Exception:
+        finite = False
     if not finite:
       res['counts']['float_nonfinite_skipped'] += 1
       continue
